@@ -109,13 +109,17 @@ class Context:
         terms = [z3.simplify(t) for t in terms]
         # constant folding for exact cases
         folded = self._fold(name, terms)
-        if folded is not None:
-            return folded
         r = f(*terms)
         lst = self.apps.setdefault(name, [])
         if not any(all(z3.eq(a, b) for a, b in zip(t0, terms)) for t0, _ in lst):
             lst.append((tuple(terms), r))
             self._instance_axioms(name, terms, r)
+            if folded is not None:
+                # exact value at a constant argument: stated as a ground fact about the
+                # uninterpreted application, so applications at symbolic arguments that
+                # turn out equal get the same value by congruence
+                self._ax(r == folded.t if folded.kind == ('int' if name == 'pow2i' else 'real') else r == z3.ToReal(folded.t),
+                         "%s at exact constants (e.g. %s(%s))" % (name, name, terms[0]))
         return SNum(r, 'int' if name == 'pow2i' else 'real')
 
     def _fold(self, name, terms):
